@@ -146,6 +146,8 @@ find_case(char *const *fmts, char *const *fmts_plain, size_t nfmt, const struct 
 	xe_hex(line, llen, lh, sizeof(lh));
 	if (mode == 'G') {
 		snprintf(cas, sizeof(cas), "G %s %s", fmthex, lh);
+	} else if (mode == 'T') {
+		snprintf(cas, sizeof(cas), "T %d", fsidx);
 	} else {
 		snprintf(cas, sizeof(cas), "L %d %s", fsidx, lh);
 	}
@@ -155,7 +157,7 @@ find_case(char *const *fmts, char *const *fmts_plain, size_t nfmt, const struct 
 	xt_fp = xt_ep = xt_in_fp = xt_in_ep = NULL;
 	rc = do_find(pl, llen, soa, &a);
 	++*c_eval;
-	if (rc || xr.n || a.sp < 0 || a.sp > (long)llen || a.ep < 0 || a.ep > (long)llen) {
+	if (rc || xr.n || a.sp < 0 || a.sp > (long)llen || a.ep < 0 || a.ep > (long)llen || a.ep < a.sp) {
 		xe_esc(line, llen, le, sizeof(le));
 		fmtset_name(fmts_plain, nfmt, fsn, sizeof(fsn));
 		cmd[0] = '\0';
@@ -181,6 +183,12 @@ find_case(char *const *fmts, char *const *fmts_plain, size_t nfmt, const struct 
 	if (a.sp < 0 || a.sp > (long)llen || a.ep < 0 || a.ep > (long)llen) {
 		snprintf(key, sizeof(key), "dt_io_find_strpdt2: match pointers outside the line%s%s", fsname ? " formats " : "", fsname ? fsname : "");
 		report(key, ord, cas, *cmd ? cmd : NULL, "dt_io_find_strpdt2(\"%s\", %zu, needles of %s): match [%ld, %ld) in a line of length %zu (%s)",
+		       le, llen, fsn, a.sp, a.ep, llen, a.unk ? "no match" : "match");
+		bad = 1;
+	}
+	if (a.sp >= 0 && a.ep <= (long)llen && a.ep < a.sp) {
+		snprintf(key, sizeof(key), "dt_io_find_strpdt2: end of the match in front of its start%s%s", fsname ? " formats " : "", fsname ? fsname : "");
+		report(key, ord, cas, *cmd ? cmd : NULL, "dt_io_find_strpdt2(\"%s\", %zu, needles of %s): match [%ld, %ld) in a line of length %zu (%s); the tools copy ep - sp bytes / go on from ep",
 		       le, llen, fsn, a.sp, a.ep, llen, a.unk ? "no match" : "match");
 		bad = 1;
 	}
@@ -406,6 +414,52 @@ static const struct fset fsets[] = {
 	{"%Y-%m-%d,%H:%M:%S,%d/%m/%y", 3, {"%Y-%m-%d", "%H:%M:%S", "%d/%m/%y"}},
 };
 #define NFSETS	((int)(sizeof(fsets) / sizeof(*fsets)))
+
+/* ---- mode T: two formats, one of digits only and one with a separator, over lines where the separator match is
+ * preceded by text the digits-only format tries (the same families as c10_tools.c) ---- */
+static const char *const tf_digits[] = {"%Y%m%d", "%H%M%S", "%s", "%Y%j"};
+static const char *const tf_needle[] = {"%d/%m/%Y", "%Y-%m-%d", "%H:%M:%S", "%d %b %Y"};
+static const char *const tf_text[] = {"07/03/2012", "2012-03-07", "12:34:56", "07 Mar 2012"};
+static const char *const tf_front[] = {"id 99999999 seen ", "id 9999 seen ", "id 20120304 seen ", "", "seen ", "99999999", "99999999 ", "20120304 ", "id 99999999 and 9999 and 20120304 seen ", "-99999999 "};
+static const char *const tf_back[] = {" end", "", " end 99999999", " and 08/03/2012 2012-03-08 12:34:57 08 Mar 2012"};
+#define TF_ND	4
+#define TF_NN	4
+#define TF_NF	10
+#define TF_NB	4
+#define TF_TOTAL	(TF_ND * TF_NN * 2)
+static int t_only = -1;
+static int
+unit_T(uint64_t idx)
+{
+	EX_CTR(c_states, "states");
+	int k = (int)idx, order = k % 2, ni = k / 2 % TF_NN, di = k / 2 / TF_NN % TF_ND, rc;
+	char *plain[3], *placed[3], line[200];
+	struct grep_atom_soa_s soa;
+
+	++*c_states;
+	plain[0] = (char*)(order ? tf_needle[ni] : tf_digits[di]);
+	plain[1] = (char*)(order ? tf_digits[di] : tf_needle[ni]);
+	place_formats(plain, 2, placed);
+	xr.n = 0;
+	xr.total = 0;
+	soa = make_needles(placed, 2, &rc);
+	if (rc) {
+		return 0;
+	}
+	for (int f = 0; f < TF_NF; f++) {
+		for (int b = 0; b < TF_NB; b++) {
+			int l = snprintf(line, sizeof(line), "%s%s%s", tf_front[f], tf_text[ni], tf_back[b]);
+			if (t_only >= 0 && t_only != f * TF_NB + b) {
+				continue;
+			}
+			if (find_case(placed, plain, 2, &soa, line, (size_t)l, order ? "(one with a separator, one of digits only)" : "(one of digits only, one with a separator)", (double)l, 'T',
+				      k * 64 + f * TF_NB + b, NULL)) {
+				return 1;
+			}
+		}
+	}
+	return 0;
+}
 
 struct sres {
 	unsigned char raw[16];
@@ -779,6 +833,7 @@ run_unit(char mode, uint64_t idx)
 	switch (mode) {
 	case 'G': return unit_G(idx);
 	case 'L': return unit_L(idx);
+	case 'T': return unit_T(idx);
 	case 'U': return unit_U(idx);
 	case 'R': return unit_R(idx);
 	case 'M': return unit_M(idx);
@@ -862,6 +917,9 @@ main(int argc, char *argv[])
 			l2 = xe_unhex(h2, b2, sizeof(b2) - 1);
 			b2[l2] = '\0';
 			unit_L(str2idx(b2, l2, SI));
+		} else if (ex.cas[0] == 'T' && sscanf(ex.cas, "T %d", &k) == 1 && k >= 0 && k / 64 < TF_TOTAL) {
+			t_only = k % 64;
+			unit_T((uint64_t)(k / 64));
 		} else if (ex.cas[0] == 'U' && sscanf(ex.cas, "U %1399s", h1) == 1) {
 			l1 = xe_unhex(h1, b1, sizeof(b1) - 1);
 			b1[l1] = '\0';
@@ -915,20 +973,20 @@ main(int argc, char *argv[])
 		"format sets (none/standard needles, one per needle class, a 3-format set): dt_io_find_strpdt2 and dt_io_strpdt. U: string over {\\ a n t v x e z A %% 0x01 0x7f}: "
 		"dt_io_unescape in place. M: duration lists of every length 0..%d over {1d 2b 1w 1mo 1y 3h 4m 5s 6rs} and the co-class forms {/1h /15m /30s /1d} (one unit throughout, "
 		"units in rotation, co-class forms in rotation, both in rotation; all '+' or signs alternating) as one concatenated string and as one string per duration into one list: no memory "
-		"report and the list equals the durations read one at a time (inside one string a '/' holds for the rest of the string, as the source says). R: string over {1 0 - + = < / d m o s SPC}: the tools' loop around dt_io_strpdtdur. Every string in a block of exactly its size. "
-		"Oracles: no ASan/bounds report, no fatal signal, returns within 1 s, match pointers inside the line, answers independent of the bytes behind the terminator (two fills), "
+		"report and the list equals the durations read one at a time (inside one string a '/' holds for the rest of the string, as the source says). T: two formats, one of digits only {%%Y%%m%%d %%H%%M%%S %%s %%Y%%j} and one with a separator {%%d/%%m/%%Y %%Y-%%m-%%d %%H:%%M:%%S, %%d %%b %%Y}, both orders, over 10 x 4 lines where the separator match is preceded by text the digits-only format tries. R: string over {1 0 - + = < / d m o s SPC}: the tools' loop around dt_io_strpdtdur. Every string in a block of exactly its size. "
+		"Oracles: no ASan/bounds report, no fatal signal, returns within 1 s, match pointers inside the line and in order (0 <= start <= end <= length on every return), answers independent of the bytes behind the terminator (two fills), "
 		"unescape terminates inside its block, the duration loop ends within 64 rounds. non-trivial = case with a report, a changed string (U) or more than one duration (R).",
 		(int)NNAMED, NFIXED, NFSETS, XD_MAXN(ex.thorough));
 	ex_meta("bound", "formats (G): length <= %d (%llu strings); lines (L): length <= %d (%llu); unescape strings: length <= %d; duration strings (R): length <= %d",
 		lenG, (unsigned long long)nstrings(lenG), lenL, (unsigned long long)nstrings(lenL), lenU, lenR);
 	{
-		static const struct { char mode; int batch; } plan[] = {{'M', 1}, {'G', 512}, {'L', 512}, {'U', 8192}, {'R', 8192}};
+		static const struct { char mode; int batch; } plan[] = {{'M', 1}, {'T', 4}, {'G', 512}, {'L', 512}, {'U', 8192}, {'R', 8192}};
 		for (size_t k = 0; k < sizeof(plan) / sizeof(*plan) && !ex_expired(); k++) {
 			uint64_t total;
 			g_mode = plan[k].mode;
 			g_maxlen = g_mode == 'G' ? lenG : g_mode == 'L' ? lenL : g_mode == 'U' ? lenU : lenR;
 			g_nenum = nstrings(g_maxlen);
-			total = g_mode == 'M' ? (uint64_t)XD_MAXN(ex.thorough) + 1U : g_nenum + (g_mode == 'G' ? NNAMED + xh_count(ex.thorough ? 3 : 2) : 0);
+			total = g_mode == 'T' ? (uint64_t)TF_TOTAL : g_mode == 'M' ? (uint64_t)XD_MAXN(ex.thorough) + 1U : g_nenum + (g_mode == 'G' ? NNAMED + xh_count(ex.thorough ? 3 : 2) : 0);
 			for (uint64_t lo = 0; lo < total && !ex.expired; lo += (uint64_t)plan[k].batch, slice++) {
 				uint64_t hi = lo + (uint64_t)plan[k].batch < total ? lo + (uint64_t)plan[k].batch : total;
 				if (!ex_mine(slice)) {
